@@ -49,6 +49,11 @@ def cases(tier):
             cs.append(F.join3(c1, c2, end=e3, order=("C", "B", "A")))
             cs.append(F.fan3(c1, c2, end=e3))
             cs.append(F.fan3(c1, c2, end=e3, order=("C", "B", "A")))
+    # components that start at different times (three components)
+    for starts in ((1, 0, 0), (0, 1, 0), (0, 0, 2), (2, 1, 0)):
+        for c1, c2 in (([], []), ([F.TOK["L"]], [F.TOK["F1"]]), ([F.TOK["F1"]], [F.TOK["L"]]), ([F.TOK["A"]], [])):
+            cs.append(F.line3(c1, c2, end=e3, starts=starts))
+            cs.append(F.line3(c1, c2, end=e3, starts=starts, order=("C", "B", "A")))
     # through pull-based components
     psub1 = ["L", "F1", "S", "P1"] if q else ["L", "F1", "S", "P1", "A", "N", "U", "Fh"]
     psub2 = ["F1", "S", "P1"] if q else ["F1", "S", "P1", "Fh", "P2"]
